@@ -165,19 +165,15 @@ pub fn run_c15(cfg: &RunCfg, trace: bool) -> RunOut {
             if !cx.out.violations.is_empty() {
                 break;
             }
-            // bounded progress: on memory-backed stacks every Pending is one the simulator injected
-            if mem_only {
-                for (name, st, inj) in [("A", &st1, inj1), ("B", &st2, inj2)] {
-                    if st.external_waits > 0 {
-                        fail!("pending-without-wakeup", format!("async twin {}: a future returned Pending without arranging a wake-up", name));
-                    }
-                    if st.pendings > inj {
-                        fail!("extra-pendings", format!("async twin {}: {} Pending results but only {} injected", name, st.pendings, inj));
-                    }
-                }
+            // bounded progress: a future that returns Pending must arrange its wake-up; the executor
+            // waits up to 20 s for one and reports "EXECUTOR: stalled" otherwise (judged above), and a
+            // per-operation poll budget bounds livelock. How often the library itself pends is not
+            // judged (an extra, properly woken Pending is legal).
+            if mem_only && (st1.external_waits > 0 || st2.external_waits > 0) {
+                cx.out.count("probe.c15.wakeup_from_another_thread_on_memory_stack");
             }
-            if !cx.out.violations.is_empty() {
-                break;
+            if st1.pendings > inj1 || st2.pendings > inj2 {
+                cx.out.count("probe.c15.library_own_pendings");
             }
             let _ = out_equiv;
         }
